@@ -16,8 +16,8 @@ use crate::util::*;
 use crate::vbus::*;
 use crate::{Ctx, Tier};
 
-pub const N_DEV: u8 = 12;
-const DEV_NAMES: [&str; 12] = [
+pub const N_DEV: u8 = 13;
+const DEV_NAMES: [&str; 13] = [
     "normal",
     "silent-1",
     "silent-2",
@@ -30,6 +30,7 @@ const DEV_NAMES: [&str; 12] = [
     "token-to-invalid-address",
     "status-request-to-ts",
     "foreign-token-elsewhere",
+    "two-strangers-once-each",
 ];
 
 struct Env {
@@ -456,7 +457,8 @@ pub fn c11_case(rep: &mut Report, seed: u64, idx: u64, script: Option<Vec<u8>>, 
                         c.env.ring.clear();
                         continue;
                     }
-                    // the new successor takes the token normally below (falls through to a normal rotation)
+                    // the next deviation applies to this first pass to the new successor (for which the
+                    // attempt count starts again)
                     if !c.env.ring.contains(&holder) {
                         c.env.ring.push(holder);
                         c.env.ring.sort();
@@ -466,6 +468,7 @@ pub fn c11_case(rep: &mut Report, seed: u64, idx: u64, script: Option<Vec<u8>>, 
                         }
                         c.rep.count("C11_environment_adopted_station_from_las");
                     }
+                    continue;
                 } else {
                     t_pass = last_end;
                     if c.rig.las().contains(&ns) == false {
@@ -526,7 +529,7 @@ pub fn c11_case(rep: &mut Report, seed: u64, idx: u64, script: Option<Vec<u8>>, 
                 t_pass = tp;
             }
             // ---- stranger offers the token ----
-            6 | 7 => {
+            6 | 7 | 12 => {
                 // the successor takes the token first (so that the supervision phase is over)
                 let next = c.env.succ_of(holder, ts);
                 let s = *rng.pick(&c.env.strangers);
@@ -547,6 +550,18 @@ pub fn c11_case(rep: &mut Report, seed: u64, idx: u64, script: Option<Vec<u8>>, 
                     return;
                 }
                 c.rep.count("C11_A2_first_offers_declined");
+                if *dev == 12 {
+                    // a different non-predecessor offers the token right afterwards: also a *first* offer
+                    let s2 = c.env.strangers.iter().copied().find(|x| *x != s).unwrap_or(s);
+                    if s2 != s && c.rig.fdl().inspect_token_ring().previous_station() != s2 {
+                        let e = c.rig.env_token(s2, ts, 40);
+                        if !c.expect_silence(e + cfg.tslot() + cfg.lat(), "A2/accepted-first-offer-from-non-predecessor", &format!("first token offer {}->{} right after a declined offer from another station #{}", s2, ts, s)) {
+                            return;
+                        }
+                        c.rep.count("C11_A2_first_offers_declined");
+                        c.rep.count("C11_A2_two_different_strangers_declined");
+                    }
+                }
                 if *dev == 7 {
                     let e = c.rig.env_token(s, ts, 34);
                     let Some(f) = c.expect_accept(e, "A2/second-offer", &format!("stranger #{} (second offer)", s)) else { return };
